@@ -126,6 +126,8 @@ def run(facts, rep, ctx):
                 start_lbl = labels.get(x[3])
     if cnt_from is not None and start_lbl == "Count":
         rep.ok(R2, {"count": "u32 at label Count"})
+    elif start_lbl is None or cnt_from is None:
+        rep.inconc(R2, "where the record count is read from was not recognised (bound %s)" % fmt(norm(bound))[:50])
     else:
         rep.violation(R2, b.name, "count", "the loop bound is %s read at label %r (specified: the u32 at `Count`)" % (fmt(norm(bound))[:50], start_lbl), where)
     seek_before = None
@@ -138,6 +140,8 @@ def run(facts, rep, ctx):
                     seek_before = labels.get(x[3])
     if seek_before == "Info":
         rep.ok(R2, {"table": "records start at label Info"})
+    elif seek_before is None:
+        rep.inconc(R2, "where the record table starts was not recognised")
     else:
         rep.violation(R2, b.name, "info", "records are read from label %r (specified `Info`)" % seek_before, where)
     # ---- R16.3 -----------------------------------------------------------------------------------------
